@@ -99,15 +99,16 @@ type poolConn struct {
 }
 
 type poolSrv struct {
-	mu       sync.Mutex
-	conns    []*poolConn
-	max      int
-	slow     map[string]chan struct{} // query id -> release signal
-	problems []string
-	maxOpen  int
-	lastConn map[string]int // query id -> conn id that served it
-	dialFail bool
-	closeErr bool
+	mu         sync.Mutex
+	conns      []*poolConn
+	max        int
+	slow       map[string]chan struct{} // query id -> release signal
+	problems   []string
+	maxOpen    int
+	lastConn   map[string]int // query id -> conn id that served it
+	dialFail   bool
+	closeErr   bool
+	closeDelay time.Duration
 }
 
 func (s *poolSrv) problem(format string, a ...any) {
@@ -139,6 +140,7 @@ func (s *poolSrv) DialContext(ctx context.Context, network, address string) (net
 	if s.closeErr {
 		pc.scriptConn.closeErr = fmt.Errorf("sim: close_notify: broken pipe")
 	}
+	pc.scriptConn.closeDelay = s.closeDelay
 	s.conns = append(s.conns, pc)
 	if n := s.openCount(); n > s.maxOpen {
 		s.maxOpen = n
@@ -242,6 +244,7 @@ type poolCfg struct {
 	Compression int  `json:"compression,omitempty"`
 	CloseErr    bool `json:"conn_close_reports_error,omitempty"` // net.Conn.Close tears the connection down but returns an error
 	MinConns    int  `json:"min_conns,omitempty"`
+	SlowCloseMs int  `json:"conn_close_takes_ms,omitempty"` // net.Conn.Close takes this long; the connection is open until it returns
 }
 
 type poolTrace struct {
@@ -251,7 +254,7 @@ type poolTrace struct {
 }
 
 func runPoolOps(cfg poolCfg, ops []poolOp) (tr poolTrace) {
-	srv := &poolSrv{max: cfg.MaxConns, slow: map[string]chan struct{}{}, lastConn: map[string]int{}, closeErr: cfg.CloseErr}
+	srv := &poolSrv{max: cfg.MaxConns, slow: map[string]chan struct{}{}, lastConn: map[string]int{}, closeErr: cfg.CloseErr, closeDelay: time.Duration(cfg.SlowCloseMs) * time.Millisecond}
 	ctx := context.Background()
 	opt := chpool.Options{
 		ClientOptions: ch.Options{Logger: zap.NewNop(), Dialer: srv, Address: "sim:9000", ReadTimeout: 60 * time.Millisecond, Compression: ch.Compression(cfg.Compression),
@@ -737,6 +740,33 @@ func runC11(c *Ctx) {
 		R.Case(fmt.Sprintf("old-handle|%d", cycles), true)
 		R.Count("sequence:directed")
 		c11Report(c, cfg, ops, tr)
+	}
+	// a connection whose Close takes a while (120 ms), destroyed at release because its lifetime is over: its slot is taken
+	// until it is really closed (MaxConns), and Pool.Close returns only when every connection is closed
+	{
+		ops := []poolOp{{Op: "acquire", W: 0}, {Op: "do", W: 0, Kind: "ok"}, {Op: "sleep", Ms: 60}, {Op: "release", W: 0}, {Op: "acquire", W: 1}, {Op: "do", W: 1, Kind: "ok"},
+			{Op: "sleep", Ms: 60}, {Op: "release", W: 1}, {Op: "close"}}
+		for _, mc := range []int{1, 2} {
+			cfg := poolCfg{MaxConns: mc, LifeMs: 30, IdleMs: 60000, HealthMs: 60000, SlowCloseMs: 120}
+			tr := runPoolOpsIsolated(cfg, ops)
+			R.Case(fmt.Sprintf("slow-close|%d", mc), true)
+			R.Count("sequence:directed")
+			cs := map[string]any{"config": cfg, "ops": ops, "events": tr.events}
+			if tr.panicked != "" {
+				R.Violate(Violation{Kind: "oracle", Key: "pool-panic", What: "the operation sequence made the pool panic: " + tr.panicked, Case: cs})
+			}
+			for _, pr := range tr.problems {
+				key := "pool-problem"
+				switch {
+				case strings.Contains(pr, "still open"):
+					key = "connections-left-open"
+				case strings.Contains(pr, "MaxConns is"):
+					key = "max-conns-exceeded"
+				}
+				R.Violate(Violation{Kind: "oracle", Key: key, What: pr, Case: cs})
+				break
+			}
+		}
 	}
 	// net.Conn.Close reporting an error must not resurrect the connection
 	for i, ops := range directed[1:3] {
